@@ -180,6 +180,36 @@ pub fn copy_then_meld() {
     sym::reach(1);
 }
 
+/// Two replicas that never talked commit objects with partly identical content (symbolic value): a's block names pack Pa,
+/// whose only object is also stored in b's pack. A third replica holding b's commit receives a's block and pack in either
+/// order with a refresh after each: a's object is visible exactly when both files are there.
+pub fn own_pack_required() {
+    let v = val();
+    let a = Rep::new();
+    a.m.create_object("xa", obj(serde_json::json!({"v": v.clone()}))).unwrap();
+    a.m.commit(None).unwrap().expect("block a");
+    let b = Rep::new();
+    b.m.create_object("xb", obj(serde_json::json!({"v": v.clone()}))).unwrap();
+    b.m.create_object("yb", obj(serde_json::json!({"w": 2}))).unwrap();
+    b.m.commit(None).unwrap().expect("block b");
+    let mut c = Rep::new();
+    c.pull(&b);
+    assert!(c.m.get_all_objects().contains("xb"), "b's commit not applied");
+    let mut pending: Vec<String> = a.ad.read().unwrap().list_objects("").unwrap();
+    let total = pending.len();
+    while !pending.is_empty() {
+        let f = pending.remove(sym::choose(pending.len()));
+        let bytes = a.ad.read().unwrap().read_object(&f, 0, 0).unwrap();
+        c.ad.write().unwrap().write_object(&f, &bytes).unwrap();
+        c.m.refresh().expect("refresh");
+        let complete = pending.is_empty();
+        assert!(c.m.get_all_objects().contains("xa") == complete, "a block took effect without its own pack (or was held back although complete)");
+        assert!(c.reopen().get_all_objects().contains("xa") == complete, "reload applies a block whose pack is missing (or holds back a complete one)");
+    }
+    let _ = total;
+    sym::reach(1);
+}
+
 /// An object referenced by a block may live in a pack that belongs to another, held-back block (payloads are
 /// de-duplicated against every indexed pack). The block must wait for that object as well.
 pub fn dedup_across_packs() {
